@@ -21,8 +21,29 @@ KNOWN_EVERY = "count: match_all_fg compares molecules while match_some_fg compar
 SACS = []
 
 
+CODES = {}
+
+
+def _code_job(name):
+    """the sugar of a residue name as the front-end reads it: first SAC-typed token of its recipe ('6dTal' is 6d + Tal)"""
+    try:
+        from glyles import Glycan
+        from glyles.grammar.GlycanLexer import GlycanLexer
+        t = Glycan(name, tree_only=True).get_tree()
+        if t is None or len(t.nodes) != 1:
+            return None
+        for tok, ty in t.nodes[0]["type"].recipe:
+            if ty == GlycanLexer.SAC:
+                return str(tok)
+    except Exception:
+        pass
+    return None
+
+
 def code_of(name):
     """sugar code (the SAC / COUNT token) of a residue name of the generated vocabulary"""
+    if CODES.get(name):
+        return CODES[name]
     rest = re.sub(r"^\d,\d-Anhydro-", "", name)
     rest = re.sub(r"^(D-|L-)", "", rest)
     rest = re.sub(r"^(LD|DD|DL|LL)(?=[A-Z])", "", rest)
@@ -92,6 +113,8 @@ def run(rep, tier, driver):
                 "x {basic, some, every}; the glycan itself and its parent-child sub-chains as queries with and without edge matching; save_dot parsed "
                 "back; summary/get_smiles repeated after the other calls; non-trivial = distinct glycan with >=2 residues and non-empty SMILES")
     outs = pmap(_job, [(s, q) for s, q, _ in cases], chunk=1)
+    allnames = sorted({nd.name for _, _, t in cases for nd in t.nodes()} | {q for _, qs, _ in cases for q, _ in qs if "(" not in q})
+    CODES.update({k: v for k, v in zip(allnames, pmap(_code_job, allnames, chunk=16)) if v})
     for (s, queries, t), o in zip(cases, outs):
         res = o["result"]
         if o["exc"] or res is None:
